@@ -6,8 +6,9 @@ an abstract file system) driven by spec/IncludeLab.tla (Combine | Parse -> Inclu
 LoadTree) on the candidate sets of spec/MC_Include.tla.
 
   (a) TLC decides C18_MergeLaw / C18_MergeKeys / C18_Pure on every tree pair and
-      C18_Equivalent / C18_PathRule / C18_ParseRule / C06_LoadUnchanged on every
-      (schema, file system, prior state, document) case of the instance.
+      C18_Equivalent / C18_OptionsUniform / C18_EntryPoints / C18_PathRule / C18_ParseRule /
+      C06_LoadUnchanged on every (schema, file system, prior state, document, entry point,
+      format + formatter options) case of the instance.
   (b) spec -> code: every case TLC enumerated is executed on the real library - combine_trees
       with deep-copied arguments; Config.load / loads on real files in a scratch directory, in
       the five formats - and compared with the specification's result; the reference side of
@@ -16,19 +17,31 @@ LoadTree) on the candidate sets of spec/MC_Include.tla.
       nested scopes), random file systems and documents, random tree pairs beyond the candidate
       sets, runs the real library, logs what happened, and TLC evaluates the specification's
       operators and the C18 predicates on the logged observations (spec/Trace_Include.tla).
+
+Formatter options (YAML root_key, XML root_tag, JSON pretty) are part of the load event: the
+default-option grid of the instance is run in the five formats in rotation (opt.fmt = "any"),
+the option grid (file system FsO of MC_Include: files wrapped under a YAML root key, files
+with a non-default XML root element, plain files, chains through them) in the format the case
+names, with the keyword arguments the case names, through loads (and load, which takes none).
+The random driver writes each world for one option value (most files consistently with it,
+some not) and loads with it (sometimes with another).
 """
+import collections
+import concurrent.futures
 import copy
 import json
 import os
 import posixpath
 import random
+import time
 
 from .. import codec, common, tlc
 from . import incworld
 from .incworld import FORMATS, chars, seq, text
 
 INV_MERGE = ["C18_MergeLaw", "C18_MergeKeys", "C18_Pure"]
-INV_LOAD = ["C18_Equivalent", "C18_PathRule", "C18_ParseRule", "C06_LoadUnchanged"]
+N_SCHEMAS_THOROUGH = 5  # Len(MCSchemaTab) of MC_Include, Size = "thorough": the export is split by schema
+INV_LOAD = ["C18_Equivalent", "C18_OptionsUniform", "C18_EntryPoints", "C18_PathRule", "C18_ParseRule", "C06_LoadUnchanged"]
 
 
 def write_cfg(path, fam, size, invariants=(), export=False, only_sid=0):
@@ -143,18 +156,23 @@ def _document_bytes(fmt, doc, root):
             raise RuntimeError("bad document (%s, %s) is accepted by the %s parser" % (fmt, doc["how"], fmt))
         return data
     value = codec.to_py(doc["v"], root)
+    tag = incworld.tag_of(doc)
+    if tag != incworld.DEFAULT_TAG and fmt != "xml":
+        return None  # only XML documents have a root element
     try:
-        data = incworld.encode(fmt, value)
+        data = incworld.encode(fmt, value, tag)
     except incworld.NotRepresentable:
         return None
-    status, back = incworld.third_party_parse(fmt, data)
+    status, back = incworld.third_party_parse(fmt, data, tag)
     if status == "error" or (status == "ok" and not typed_equal(back, value)):
         return None  # the encoder/parser pair does not carry this tree: not a case for this format
     return data
 
 
-def check_load_case(bench, case, fmt, via, stats, with_reference=True):
-    """spec -> code for one finished load case in one format; returns [(signature, detail, extra)]."""
+def check_load_case(bench, case, fmt, via, stats, with_reference=True, variant=0):
+    """spec -> code for one finished load case in one format; returns [(signature, detail, extra)].
+
+    The keyword arguments of the call are the options of the case (none for opt.explicit = false)."""
     cinco = bench.cinco
     sid, fid = case["sid"], case["fid"]
     world = bench.world(fid, fmt)
@@ -168,19 +186,23 @@ def check_load_case(bench, case, fmt, via, stats, with_reference=True):
         return None
     desc = bench.schemas[sid - 1]
     schema = bench.schema(sid, fid, fmt)
-    real = incworld.run_load(cinco, world, schema, desc, case["pre"], data, via=via)
+    kwargs = incworld.kwargs_of(case.get("opt"), variant)
+    real = incworld.run_load(cinco, world, schema, desc, case["pre"], data, via=via, kwargs=kwargs)
     bad = []
-    extra = {"format": fmt, "via": via, "exception": real.exc, "observed": {"out": real.out, "before": real.before, "after": real.after, "repl": real.repl}}
+    extra = {"format": fmt, "via": via, "kwargs": kwargs, "exception": real.exc, "observed": {"out": real.out, "before": real.before, "after": real.after, "repl": real.repl}}
     cls = "%s/%s/%s" % (case["out"], case["failedAt"] or "-", case["why"] or "-")
+    if kwargs:
+        cls += "+" + ",".join(sorted(kwargs))
+        stats["loads_with_options"] += 1
     if incworld.canon(real.before) != incworld.canon(case["cfg0"]):
         stats["drift_pre_state"] += 1  # load_tree(pre) itself differs: outside this property's projection
         return []
     if real.out != case["out"]:
-        bad.append(("conf:load:out:" + cls, "Config.%s: specification says %s (%s), the library %s (%s)" % (via, case["out"], cls, real.out, real.exc), extra))
+        bad.append(("conf:load:out:" + cls, "Config.%s(%s): specification says %s (%s), the library %s (%s)" % (via, ", ".join([fmt] + ["%s=%r" % kv for kv in sorted(kwargs.items())]), case["out"], cls, real.out, real.exc), extra))
     elif case["out"] == "ok":
         if incworld.canon(real.after) != incworld.canon(case["cfg"]):
             bad.append(("conf:load:state", "configuration after Config.%s differs from the specification's" % via, extra))
-    if case["failedAt"] in ("parse", "include") and real.out == "rejected":
+    if case["failedAt"] in ("call", "parse", "include") and real.out == "rejected":
         if incworld.canon(real.after) != incworld.canon(real.before) or real.repl:
             bad.append(("conf:load:unchanged:" + cls, "a load that failed in %s changed the configuration (replaced objects: %s)" % (case["failedAt"], real.repl), extra))
     ref = case["ref"]
@@ -358,8 +380,62 @@ def rnd_scope_tree(rng, desc, files, p_inc=0.5, depth=0):
     return D(pairs)
 
 
-def rnd_world(rng, fmt):
-    """A random schema and a random file system for it."""
+ROOT_KEYS = ["R", "R", "cfg", "sub", "a"]  # also names that are field names of the schemas
+ROOT_TAGS = ["cfg", "root"]
+
+
+def rnd_opt(rng, fmt):
+    """Format `fmt` with a random value of its formatter option (or none passed)."""
+    opt = incworld.default_opt(fmt)
+    r = rng.random()
+    if fmt == "yaml":
+        if r >= 0.3:
+            opt["explicit"] = True
+            opt["rk"] = chars(rng.choice(ROOT_KEYS)) if r >= 0.4 else []
+    elif fmt == "xml":
+        if r >= 0.35:
+            opt["explicit"] = True
+            opt["tag"] = chars(rng.choice(ROOT_TAGS)) if r >= 0.45 else chars(incworld.DEFAULT_TAG)
+    elif fmt == "json":
+        if r >= 0.5:
+            opt["explicit"] = True
+            opt["pretty"] = r >= 0.75
+    return opt
+
+
+def written_for(rng, opt, tree, p_consistent):
+    """A file entry holding `tree`, written for the options `opt` (consistently with probability
+    p_consistent: under the YAML root key / with the XML root element; otherwise some other way)."""
+    entry = {"k": "file", "v": tree}
+    fmt = opt["fmt"]
+    consistent = rng.random() < p_consistent
+    if fmt == "yaml":
+        rk = text(opt["rk"])
+        if rk and consistent:
+            entry["v"] = D([(rk, tree)])
+        elif rk:
+            r = rng.random()
+            if r < 0.15:
+                entry["v"] = D([(rk, D([(rk, tree)]))])  # wrapped twice
+            elif r < 0.3:
+                entry["v"] = D([(rk, tree), ("n", I(77))])  # the root key among other keys
+            elif r < 0.4:
+                entry["v"] = D([(rk, rng.choice([I(5), NONE, {"t": "list", "l": []}]))])
+            # else: the plain tree, without the root key
+        elif not consistent and rng.random() < 0.5:
+            entry["v"] = D([("R", tree)])  # wrapped, but no root key is in force
+    elif fmt == "xml":
+        tag = text(opt["tag"])
+        if not consistent:
+            tag = rng.choice([t for t in ROOT_TAGS + [incworld.DEFAULT_TAG] if t != tag])
+        if tag != incworld.DEFAULT_TAG:
+            entry["tag"] = chars(tag)
+    return entry
+
+
+def rnd_world(rng, fmt, opt=None):
+    """A random schema and a random file system for it, written for the options `opt`."""
+    opt = opt or incworld.default_opt(fmt)
     desc = rnd_schema(rng)
     scopes = list(scopes_of(desc))
     names = ["f%d" % i for i in range(1, 7)]
@@ -369,7 +445,7 @@ def rnd_world(rng, fmt):
         r = rng.random()
         if r < 0.88:
             _, scope = rng.choice(scopes)
-            fs.append([chars(p), {"k": "file", "v": rnd_scope_tree(rng, scope, files, p_inc=0.25)}])
+            fs.append([chars(p), written_for(rng, opt, rnd_scope_tree(rng, scope, files, p_inc=0.25), 0.85)])
         elif r < 0.92:
             fs.append([chars(p), {"k": "unparseable"}])
         elif r < 0.95:
@@ -381,17 +457,21 @@ def rnd_world(rng, fmt):
     return desc, fs, files
 
 
-def rnd_load_case(rng, fmt, desc, fs, files):
+def rnd_load_case(rng, fmt, desc, fs, files, opt=None):
+    opt = opt or incworld.default_opt(fmt)
     pre = rnd_scope_tree(rng, desc, files, p_inc=0.0) if rng.random() < 0.6 else D([])
     pre = strip_bad(pre, desc)
     r = rng.random()
     if r < 0.9:
-        doc = {"k": "tree", "v": rnd_scope_tree(rng, desc, files, p_inc=0.7)}
+        entry = written_for(rng, opt, rnd_scope_tree(rng, desc, files, p_inc=0.7), 0.9)
+        doc = {"k": "tree", "v": entry["v"]}
+        if "tag" in entry:
+            doc["tag"] = entry["tag"]
     elif r < 0.95 and fmt in ("json", "yaml", "pickle"):
         doc = {"k": "tree", "v": rng.choice([{"t": "list", "l": []}, I(1), S("doc"), NONE])}
     else:
         doc = {"k": "unparseable", "how": rng.choice(["truncated", "undecodable", "notdoc"] + (["wrongroot"] if fmt == "xml" else []))}
-    return {"k": "load", "S": desc, "fs": fs, "pre": pre, "doc": doc, "fmt": fmt}
+    return {"k": "load", "S": desc, "fs": fs, "pre": pre, "doc": doc, "fmt": fmt, "opt": opt}
 
 
 def strip_bad(tree, desc):
@@ -421,55 +501,94 @@ def drive_loads(cinco, rng, n, stats, per_world=4):
     while len(cases) < n and tries < n:
         tries += 1
         fmt = FORMATS[tries % len(FORMATS)]
-        desc, fs, files = rnd_world(rng, fmt)
+        wopt = rnd_opt(rng, fmt)  # the option value the files of this world are written for
+        desc, fs, files = rnd_world(rng, fmt, wopt)
         world = incworld.FsWorld(fs, fmt, os.path.join(base, "w%d" % tries))
         try:
             if world.unrepresentable:
                 continue
             schema = incworld.build_schema(cinco, desc, world.root)
             for j in range(per_world):
-                case = rnd_load_case(rng, fmt, desc, fs, files)
+                # mostly the options the world was written for; sometimes others (the files then do not fit)
+                opt = wopt if rng.random() < 0.85 else rnd_opt(rng, fmt)
+                case = rnd_load_case(rng, fmt, desc, fs, files, opt)
                 try:
                     data = document_bytes(fmt, case["doc"], world.root)
                 except RuntimeError:
                     data = None
                 if data is None:
                     continue
+                # load() takes no options: through a file when none are passed, rarely with them
+                via = "load" if ((j == 0 and not opt["explicit"]) or rng.random() < 0.03) else "loads"
+                kwargs = incworld.kwargs_of(opt, rng.randrange(2))
                 try:
-                    real = incworld.run_load(cinco, world, schema, desc, case["pre"], data, via="load" if j == 0 else "loads")
+                    real = incworld.run_load(cinco, world, schema, desc, case["pre"], data, via=via, kwargs=kwargs)
                 except codec.Unrepresentable:
                     continue
-                case.update({"out": real.out, "cfg0": real.before, "cfg": real.after, "repl": real.repl, "exc": real.exc})
+                case.update({"via": via, "out": real.out, "cfg0": real.before, "cfg": real.after, "repl": real.repl, "exc": real.exc, "kwargs": kwargs})
                 cases.append(case)
                 stats["by_format"][fmt] = stats["by_format"].get(fmt, 0) + 1
                 stats["by_out"][real.out] = stats["by_out"].get(real.out, 0) + 1
+                if kwargs:
+                    key = "%s:%s" % (fmt, ",".join("%s=%r" % kv for kv in sorted(kwargs.items())))
+                    stats["by_options"][key] = stats["by_options"].get(key, 0) + 1
+                    if real.out == "ok":
+                        stats["ok_with_options"] = stats.get("ok_with_options", 0) + 1
         finally:
             world.remove()
     return cases[:n]
 
 
-NOT_LOGGED = ("exc", "raised", "label", "via", "fmt")  # harness bookkeeping, not part of the observation
+def prefetched(jobs, ahead=1):
+    """Results of the thunks `jobs`, in order; they run one after the other in a background thread,
+    at most `ahead` finished results waiting while the caller works on the previous one."""
+    with concurrent.futures.ThreadPoolExecutor(max_workers=1) as pool:
+        it = iter(jobs)
+        pending = collections.deque()
+        for _ in range(ahead + 1):
+            job = next(it, None)
+            if job is not None:
+                pending.append(pool.submit(job))
+        while pending:
+            try:
+                res = pending.popleft().result()
+            except BaseException:
+                for f in pending:
+                    f.cancel()
+                raise
+            yield res
+            job = next(it, None)
+            if job is not None:
+                pending.append(pool.submit(job))
 
 
-def validate_cases(cases, batch=4000):
-    """TLC judges every logged case (Trace_Include.tla); returns ([(case, verdict)], tlc states)."""
-    verdicts = []
-    states = 0
-    for start in range(0, len(cases), batch):
-        chunk = cases[start : start + batch]
+NOT_LOGGED = ("exc", "raised", "label", "fmt", "kwargs")  # harness bookkeeping, not part of the observation
+
+
+def validate_cases(cases, batch=4000, parallel=1):
+    """TLC judges every logged case (Trace_Include.tla); returns ([(case, verdict)], tlc states).
+    `parallel`: batches judged at the same time (separate TLC processes)."""
+    chunks = [cases[start : start + batch] for start in range(0, len(cases), batch)]
+
+    def judge(chunk):
         d = tlc.scratch("cinco-c18t-")
         path = os.path.join(d, "cases.json")
         with open(path, "w") as fp:
             fp.write(json.dumps([{k: v for k, v in c.items() if k not in NOT_LOGGED} for c in chunk]))
-        res = tlc.run("Trace_Include.tla", "Trace_Include.cfg", workers=1, env={"TRACE_FILE": path}, keep=("TRACE",))
-        states += res.distinct
-        seen = set()
-        for rec in res.printed.get("TRACE", []):
-            seen.add(rec["t"])
-            verdicts.append((chunk[rec["t"] - 1], rec))
-        missing = set(range(1, len(chunk) + 1)) - seen
-        if missing:
-            raise tlc.TLCError("trace run lost %d cases (first: %s)" % (len(missing), json.dumps(chunk[min(missing) - 1])[:600]))
+        return tlc.run("Trace_Include.tla", "Trace_Include.cfg", workers=1, env={"TRACE_FILE": path}, keep=("TRACE",))
+
+    verdicts = []
+    states = 0
+    with concurrent.futures.ThreadPoolExecutor(max_workers=max(1, parallel)) as pool:
+        for chunk, res in zip(chunks, pool.map(judge, chunks)):
+            states += res.distinct
+            seen = set()
+            for rec in res.printed.get("TRACE", []):
+                seen.add(rec["t"])
+                verdicts.append((chunk[rec["t"] - 1], rec))
+            missing = set(range(1, len(chunk) + 1)) - seen
+            if missing:
+                raise tlc.TLCError("trace run lost %d cases (first: %s)" % (len(missing), json.dumps(chunk[min(missing) - 1])[:600]))
     return verdicts, states
 
 
@@ -516,6 +635,7 @@ def run(tier, seed):
         "drift_pre_state": 0,
         "equivalence_pairs": 0,
         "loads_run": 0,
+        "loads_with_options": 0,
         "by_format": {},
         "by_outcome": {},
         "trace_skipped_unmodelled": 0,
@@ -525,6 +645,13 @@ def run(tier, seed):
     samples = []
     distinct = set()
     n_viol = {"merge": 0, "load": 0}
+    phases = {}
+    clock = [time.time()]
+
+    def phase(name):
+        now = time.time()
+        phases[name] = round(phases.get(name, 0.0) + now - clock[0], 1)
+        clock[0] = now
 
     def spec_violation(res, fam):
         out.violation(
@@ -537,10 +664,12 @@ def run(tier, seed):
     cfg = os.path.join(d, "merge.cfg")
     if big:
         write_cfg(cfg, "merge", size, INV_MERGE)
-        res = tlc.run("MC_Include.tla", cfg, workers=16, keep=())
         cfgx = os.path.join(d, "merge_x.cfg")
         write_cfg(cfgx, "merge", size, (), export=True)
-        exp = tlc.run("MC_Include.tla", cfgx, workers=1, keep=("CASE",))
+        with concurrent.futures.ThreadPoolExecutor(max_workers=2) as pool:  # the two TLC runs side by side
+            f_inv = pool.submit(tlc.run, "MC_Include.tla", cfg, workers=16, keep=())
+            f_exp = pool.submit(tlc.run, "MC_Include.tla", cfgx, workers=1, keep=("CASE",))
+            res, exp = f_inv.result(), f_exp.result()
     else:
         write_cfg(cfg, "merge", size, INV_MERGE, export=True)
         res = exp = tlc.run("MC_Include.tla", cfg, workers=1, keep=("CASE",))
@@ -548,6 +677,7 @@ def run(tier, seed):
     transitions += res.generated
     if not res.ok:
         spec_violation(res, "merge")
+    phase("merge_tlc")
     merge_cases = exp.printed.get("CASE", [])
     nontrivial_merge = 0
     for i, case in enumerate(merge_cases):
@@ -567,35 +697,50 @@ def run(tier, seed):
             samples.append({"merge_case": {"base": codec.to_py(case["base"]), "child": codec.to_py(case["child"]), "result": codec.to_py(case["res"])}})
     n_merge = len(merge_cases)
     del merge_cases, exp
+    phase("merge_replay")
 
     # ---- family "load": (a) invariants, (b) every case on real files in the five formats
     cfg = os.path.join(d, "load.cfg")
-    load_runs = []
+    inv_pool = inv_run = None
     if big:
+        # the invariants (16 workers) run while the cases are exported schema by schema (1 worker, one
+        # export ahead) and replayed on the real library
         write_cfg(cfg, "load", size, INV_LOAD)
-        res = tlc.run("MC_Include.tla", cfg, workers=16, keep=("INIT",))
-        tables = res.printed["INIT"][0]
-        for sid in range(1, len(seq(tables["schemas"])) + 1):
-            load_runs.append(sid)
+        inv_pool = concurrent.futures.ThreadPoolExecutor(max_workers=1)
+        inv_run = inv_pool.submit(tlc.run, "MC_Include.tla", cfg, workers=16, keep=())
+
+        def export_job(part):
+            def job():
+                cfgx = os.path.join(d, "load_x%d.cfg" % part)
+                write_cfg(cfgx, "load", size, (), export=True, only_sid=part)
+                return tlc.run("MC_Include.tla", cfgx, workers=1, keep=("INIT", "CASE")).printed
+
+            return job
+
+        parts = prefetched([export_job(sid) for sid in range(1, N_SCHEMAS_THOROUGH + 1)])
     else:
         write_cfg(cfg, "load", size, INV_LOAD, export=True)
         res = tlc.run("MC_Include.tla", cfg, workers=1, keep=("INIT", "CASE"))
-        tables = res.printed["INIT"][0]
-        load_runs.append(None)
-    states += res.distinct
-    transitions += res.generated
-    if not res.ok:
-        spec_violation(res, "load")
-    bench = Bench(cinco, seq(tables["schemas"]), seq(tables["fss"]))
+        parts = [res.printed]
+        states += res.distinct
+        transitions += res.generated
+        if not res.ok:
+            spec_violation(res, "load")
+    phase("load_tlc")
+    bench = None
     n_load_cases = 0
     classes = {}
-    for part in load_runs:
-        if part is None:
-            cases = res.printed.get("CASE", [])
-        else:
-            cfgx = os.path.join(d, "load_x%d.cfg" % part)
-            write_cfg(cfgx, "load", size, (), export=True, only_sid=part)
-            cases = tlc.run("MC_Include.tla", cfgx, workers=1, keep=("CASE",)).printed.get("CASE", [])
+    option_cases = {}  # format:keyword arguments -> cases of the option grid
+    option_chains = {}  # ... of which accepted loads that followed >= 2 includes with options passed
+    for printed in parts:
+        phase("load_wait_export")
+        if bench is None:
+            tables = printed["INIT"][0]
+            if big and len(seq(tables["schemas"])) != N_SCHEMAS_THOROUGH:
+                raise tlc.TLCError("MC_Include has %d schemas, the harness exports %d" % (len(seq(tables["schemas"])), N_SCHEMAS_THOROUGH))
+            bench = Bench(cinco, seq(tables["schemas"]), seq(tables["fss"]))
+        cases = printed.get("CASE", [])
+        del printed
         for case in cases:
             n_load_cases += 1
             idx = n_load_cases
@@ -604,12 +749,21 @@ def run(tier, seed):
             cls = "%s/%s/%s" % (case["out"], case["failedAt"] or "-", case["why"] or "-")
             classes[cls] = classes.get(cls, 0) + 1
             distinct.add(common.hash_case(["l", case["sid"], case["fid"], case["pre"], case["doc"]]))
-            # two (quick) / three (thorough) of the five formats per case, rotating, so that all five are
-            # used evenly; the reference side of the equivalence is executed once per case
-            fmts = [FORMATS[idx % 5], FORMATS[(idx + 2) % 5]] + ([FORMATS[(idx + 4) % 5]] if big else [])
+            opt = case["opt"]
+            if opt["fmt"] == "any":
+                # default options: two (quick) / three (thorough) of the five formats per case, rotating, so
+                # that all five are used evenly; the reference side of the equivalence is executed once per case
+                fmts = [FORMATS[idx % 5], FORMATS[(idx + 2) % 5]] + ([FORMATS[(idx + 4) % 5]] if big else [])
+            else:
+                fmts = [opt["fmt"]]  # the format whose options the case gives
+                key = "%s:%s" % (opt["fmt"], ",".join("%s=%s" % kv for kv in sorted(incworld.kwargs_of(opt).items())) or "-")
+                option_cases[key] = option_cases.get(key, 0) + 1
+                if case["out"] == "ok" and len(seq(case["used"])) >= 2 and opt["explicit"]:
+                    option_chains[key] = option_chains.get(key, 0) + 1
             eq0 = stats["equivalence_pairs"]
             for j, fmt in enumerate(fmts):
-                bad = check_load_case(bench, case, fmt, "load" if (idx + j) % 4 == 0 else "loads", stats, with_reference=(stats["equivalence_pairs"] == eq0))
+                via = case["via"] if case["via"] != "any" else ("load" if (idx + j) % 4 == 0 else "loads")
+                bad = check_load_case(bench, case, fmt, via, stats, with_reference=(stats["equivalence_pairs"] == eq0), variant=idx)
                 for sig, detail, extra in bad or []:
                     n_viol["load"] += 1
                     if n_viol["load"] <= 25:
@@ -621,17 +775,34 @@ def run(tier, seed):
             if len(samples) < 2 and case["out"] == "ok" and len(seq(case["used"])) >= 3:
                 samples.append({"load_case": {"schema": case["sid"], "fs": case["fid"], "document": codec.to_py(case["doc"]["v"], "$"), "includes_followed": [[text(u["key"]), text(u["opened"])] for u in seq(case["used"])], "merged_tree": codec.to_py(case["ref"]["tree"], "$")}})
         del cases
+        phase("load_replay")
+    if inv_run is not None:
+        try:
+            res = inv_run.result()
+        finally:
+            inv_pool.shutdown()
+        states += res.distinct
+        transitions += res.generated
+        if not res.ok:
+            spec_violation(res, "load")
+        phase("load_wait_invariants")
     needed = ["ok/-/-", "rejected/include/path", "rejected/include/open", "rejected/include/parse", "rejected/include/notmap", "rejected/loadtree/-", "rejected/parse/truncated"]
+    needed += ["rejected/call/options", "rejected/parse/notdoc"]
     lacking = [c for c in needed if not classes.get(c)]
     if lacking:
         raise tlc.TLCError("vacuous instance: no case of class %s" % lacking)
+    lacking = [k for k in ("yaml:root_key=R", "xml:root_tag=cfg", "json:pretty=False") if not option_chains.get(k)]
+    if lacking:
+        raise tlc.TLCError("vacuous instance: no accepted chain of includes loaded with options %s" % lacking)
 
     # ---- (c) code -> spec
     rng = random.Random(seed * 7919 + 18)
     n_rm, n_rl = (3000, 500) if not big else (40000, 6000)
-    dstats = {"by_format": {}, "by_out": {}}
+    dstats = {"by_format": {}, "by_out": {}, "by_options": {}}
     rcases = drive_merges(cinco, rng, n_rm) + drive_loads(cinco, rng, n_rl, dstats)
-    verdicts, tstates = validate_cases(rcases)
+    phase("driver")
+    verdicts, tstates = validate_cases(rcases, parallel=3 if big else 1)
+    phase("driver_tlc")
     report_trace_verdicts(out, verdicts, "", stats)
     for c in rcases:
         distinct.add(common.hash_case([c["k"], c.get("base"), c.get("child"), c.get("S"), c.get("fs"), c.get("doc"), c.get("pre")]))
@@ -653,6 +824,9 @@ def run(tier, seed):
         "spec_to_code_loads_executed": stats["loads_run"],
         "spec_to_code_loads_by_format": stats["by_format"],
         "spec_to_code_load_classes": classes,
+        "spec_to_code_option_cases": option_cases,
+        "spec_to_code_option_chains_accepted": option_chains,
+        "spec_to_code_loads_with_keyword_options": stats["loads_with_options"],
         "spec_to_code_equivalence_pairs": stats["equivalence_pairs"],
         "spec_to_code_skipped_not_representable_in_format": stats["skipped_unrepresentable"],
         "merge_key_order_drift": stats["merge_key_order_drift"],
@@ -661,14 +835,20 @@ def run(tier, seed):
         "code_to_spec_load_cases": len(rcases) - n_rm,
         "code_to_spec_loads_by_format": dstats["by_format"],
         "code_to_spec_loads_by_outcome": dstats["by_out"],
+        "code_to_spec_loads_by_keyword_options": dstats["by_options"],
+        "code_to_spec_loads_accepted_with_options": dstats.get("ok_with_options", 0),
         "code_to_spec_skipped_unmodelled": stats["trace_skipped_unmodelled"],
         "code_to_spec_tlc_states": tstates,
         "evaluations": executed,
+        "phase_wall_s": phases,
         "distinct_nontrivial": len(distinct),
-        "rule": "merge case = (base, child) pair given to combine_trees; load case = (schema, file system, prior tree, document) "
-        "loaded with Config.load/loads from real files (quick: 2, thorough: 3 of the 5 formats per case, in rotation); "
+        "rule": "merge case = (base, child) pair given to combine_trees; load case = (schema, file system, prior tree, document, "
+        "entry point, format + formatter options) loaded with Config.load/loads from real files (default options: quick 2, thorough 3 "
+        "of the 5 formats per case, in rotation; option grid: YAML root_key none/R (thorough: ''/a field name), XML root_tag config/cfg, "
+        "JSON pretty, in that format, documents and included files written with and without the option, through loads and load); "
         "TLC enumerates the candidate sets completely; the driver adds seeded random tree pairs (depth 4, 6 keys) and random "
-        "schemas/file systems/documents (3 scopes, up to 3 include fields per scope, relative/absolute/dotted names); "
+        "schemas/file systems/documents (3 scopes, up to 3 include fields per scope, relative/absolute/dotted names), each world written "
+        "for a random option value of its format (85% of the files consistently with it) and loaded with it (85%) or another; "
         "distinct = distinct inputs; non-trivial merge = both trees non-empty",
         "samples": samples[:3],
     }
@@ -678,6 +858,8 @@ def run(tier, seed):
         "the file system is abstracted to file(tree) / unparseable / unreadable / directory / missing below a scratch root; the working directory is $/W and HOME is $/H while a case runs (start directories may begin with '~'); no symbolic links, no '~user', no '~' in include names",
         "an unreadable include is realised by making open() raise PermissionError for that path inside the harness process (the checks run as root)",
         "the order of keys in a merged map and the exception class of a rejection are not part of the property and are not compared; a load_tree that fails half-way may leave partial state (compared only for acceptance)",
+        "formatter options are the documented ones of each format (YAML root_key, XML root_tag, JSON pretty; BSON and pickle have none); keyword arguments a format does not know are not passed; "
+        "Config.load(filename, format) is modelled as it is: it takes no formatter options (passing any is rejected at the call), so options reach a load only through Config.loads",
     ]
     if stats["drift_pre_state"] + stats["trace_drift_pre_state"]:
         out.notes.append("MODEL-DRIFT: load_tree(prior tree) differed from the specification in %d case(s); those cases were not judged" % (stats["drift_pre_state"] + stats["trace_drift_pre_state"]))
